@@ -208,7 +208,12 @@ func (in *inst) files(batch []string) vf.VFS {
 			if in.t.left == "x" {
 				jv = s
 			}
-			recs = append(recs, []kv{{jn, jv}, {"lf", "L" + strconv.Itoa(i)}})
+			if in.f.in == "nidx" {
+				// positional names: a second left field would be named "2" and collide with the right record's field 2
+				recs = append(recs, []kv{{jn, jv}})
+			} else {
+				recs = append(recs, []kv{{jn, jv}, {"lf", "L" + strconv.Itoa(i)}})
+			}
 		}
 	}
 	return vf.VFS{"LEFT": encode(in.f.in, recs)}
@@ -407,6 +412,9 @@ func (r *runner) judge(in *inst, batch []string, recs [][]kv, out [][]kv, cmd []
 }
 
 func (r *runner) viol(in *inst, kind, spelling string, cmd []string, input string, what string) {
+	if kind == "text" && in.f.out == "tsv" && strings.Contains(what, "\ufffd") {
+		kind = "text-tsv-invalid-utf8" // cause label only: the TSV writer re-encodes invalid UTF-8 bytes as U+FFFD
+	}
 	key := fmt.Sprintf("L%02d %s[%s](%s | %s | %s | %s | %q)", len(spelling), kind, in.t.verb, in.t.name, in.flag, in.f.name, in.l.name, spelling)
 	if len(input) > 6000 {
 		input = input[:6000] + "...(truncated)"
@@ -636,6 +644,9 @@ func spellWorker(w *vf.Worker) {
 				if !w.Mine(idx) {
 					continue
 				}
+				if only := os.Getenv("VERIF_C03_ONLY"); only != "" && !strings.Contains(t.name, only) {
+					continue
+				}
 				if r.overBudget() {
 					w.Inexhaustive(fmt.Sprintf("spell grid: time budget reached inside strings %d..%d of %d", lo, hi, total))
 					return
@@ -775,7 +786,7 @@ func run(c *vf.Ctx) {
 	c.Extra["excluded_verbs"] = cat.excluded
 	c.Extra["uncovered_verbs(in lookup table, no template, not excluded)"] = cat.uncoveredVerbs
 	c.Extra["verb_options_no_template_uses"] = cat.verbOptions
-	c.Extra["verbs_in_lookup_table"] = len(verbHits) + len(cat.excluded) + len(cat.uncoveredVerbs) - boolInt(verbHits["(chain)"] > 0)
+	c.Extra["verbs_in_lookup_table"] = len(verbHits) + len(cat.excluded) + len(cat.uncoveredVerbs) - boolInt(verbHits["chain"] > 0)
 	c.Extra["spell_grid_max_length"] = a.MaxLen
 	c.Extra["spell_grid_strings"] = countStrings(a.MaxLen)
 	c.Extra["readers_grid_spellings"] = len(s2(a.S2Len))
